@@ -21,7 +21,23 @@ COQ_FALLBACK = ("Model.C18", "spec_ok")
 COQ_IMPORTS = "From PAV Require Import Base.NumOps."
 SHARD = 250
 DEN = 16
-RULE = ("(h) histories (op hist): 1-2 BorderRelocator objects on one Mask2D object (sub-size maps equal, permuted or "
+RULE = ("(k) INPUT KINDS, drawn independently for every coordinate array of a call (data grid, mesh grid, border of the util "
+        "function, every pooled grid of a history): float64, float32, int64 / int32 ndarrays, Python lists of ints / floats "
+        "(lists, tuples), a strided view into a larger array of the caller, Fortran order; integer-typed arrays take "
+        "denominator 1 and meet float-typed partners with fractional values (own denominator per array) and the reverse "
+        "(integer mesh vertices on a float data grid); float32 data grids are scaled by the number of border pixels so that "
+        "np.mean of the float32 border is exact (else run as float64, counted), decisions on float32 squared distances "
+        "closer than 1e-5 are skipped; every kind must give the float64 result of the model (1e-9, untouched points "
+        "numerically identical).  Containers: Grid2DIrregular, its subclass Grid2DIrregularUniform, Grid2D, a plain ndarray, a Mesh2DDelaunay "
+        "object as mesh grid, derived (arithmetic) and native->slim structures, also integer-typed.  Sub-size maps: int, "
+        "int64 / int32 / float64 / float32 ndarray, int / float Array2D, Python lists of ints / floats; op radial: the map "
+        "is what OverSamplingUniform.from_radial_bins returns (float64 Array2D) and the relocator is "
+        "GridsDataset(mask, OverSamplingDataset(pixelization=...)).border_relocator, data grid = a distorted grid or the "
+        "dataset's own over_sampler_pixelization.over_sampled_grid object.  Masks include single-pixel, 1xN, Nx1 and 1x1; "
+        "empty mesh grids.  After every call: containers, the caller's arrays / lists they were built from, the rest of a "
+        "larger array around a view, the caller's Preloads() object handed to several calls and the shared DEFAULT "
+        "Preloads() objects of relocated_grid_from / mapper_grids_from are compared with their state before.  "
+        "(h) histories (op hist): 1-2 BorderRelocator objects on one Mask2D object (sub-size maps equal, permuted or "
         "different), 2-5 data grids and 2-3 mesh grids, 3-9 calls in random order through BorderRelocator, "
         "AbstractMesh.relocated_grid_from / relocated_mesh_grid_from, Delaunay/Voronoi/Rectangular mapper_grids_from with and "
         "without preloads.relocated_grid, reads of sub_border_slim / sub_border_grid in between, results kept and used as "
@@ -57,9 +73,9 @@ ASSUMPTIONS = ["theorems are over the real numbers (no rounding): in floating po
                "moved by one ulp; such inputs are inside the excluded 1e-6 band",
                "numba absent: the jit functions run as plain Python/numpy"]
 
-STATS = {"skipped_band": 0, "points": 0, "moved": 0, "interior": 0, "outside_kept": 0, "at_border": 0}
+STATS = {"f4_downgraded": 0, "skipped_band": 0, "points": 0, "moved": 0, "interior": 0, "outside_kept": 0, "at_border": 0}
 def extra_evidence():
-    return {"skipped_in_band": STATS["skipped_band"], "relocation_points": STATS["points"],
+    return {"skipped_in_band": STATS["skipped_band"], "float32_cases_run_as_float64": STATS["f4_downgraded"], "relocation_points": STATS["points"],
             "points_moved": STATS["moved"], "points_interior_untouched": STATS["interior"],
             "points_outside_min_radius_kept": STATS["outside_kept"], "points_identical_to_a_border_point": STATS["at_border"]}
 
@@ -79,11 +95,65 @@ def arrF(l): return np.array([[float(p[0]), float(p[1])] for p in l], dtype=floa
 def pts_out(a): return [[float(v[0]), float(v[1])] for v in np.asarray(a).reshape(-1, 2)]
 def fr_pts(a): return [(Fraction(float(v[0])), Fraction(float(v[1]))) for v in np.asarray(a).reshape(-1, 2)]
 
-# ----------------------------------------------------------------------------- decision band (exact)
-def in_band(grid16, border16, den=DEN, tally=True):
-    return in_band_F(Fs(grid16, den), Fs(border16, den), tally)
+# ----------------------------------------------------------------------------- input KINDS of a coordinate array
+# f8 (the usual float64 ndarray), f4 (float32), i8 / i4 (integer ndarrays; den must be 1), pylist / pytuples (lists of
+# Python ints if den == 1, of Python floats otherwise; containers only), f8view (a strided view into a larger array of
+# the caller), f8F (Fortran order).  The relocation of every kind must be the float64 computation on the same numbers.
+INT_KINDS = ("i8", "i4")
+LIST_KINDS = ("pylist", "pytuples")
+VIEW_FILL = 7.25
+def mk_vals(pts, den, kind):
+    """the caller's coordinates k/den as an object of the given kind"""
+    if kind in LIST_KINDS:
+        conv = (lambda k: int(k)) if den == 1 else (lambda k: k / den)
+        return [[conv(p[0]), conv(p[1])] for p in pts] if kind == "pylist" else [(conv(p[0]), conv(p[1])) for p in pts]
+    if kind in INT_KINDS:
+        if den != 1: raise ValueError("integer coordinates need den = 1")
+        return np.array([[int(p[0]), int(p[1])] for p in pts], dtype=np.int64 if kind == "i8" else np.int32).reshape(-1, 2)
+    a = arr16(pts, den)
+    if kind == "f8": return a
+    if kind == "f4": return a.astype(np.float32)
+    if kind == "f8F": return np.asfortranarray(a)
+    if kind == "f8view":
+        big = np.full((2 * len(a) + 1, 3), VIEW_FILL); v = big[1::2, :2]; v[:, :] = a
+        return v
+    raise ValueError(kind)
+def view_intact(v):
+    """f8view: nothing but the view's own cells was written in the caller's larger array"""
+    big = getattr(v, "base", None)
+    if big is None or big.ndim != 2 or big.shape != (2 * len(v) + 1, 3) or v.strides == big[:len(v), :2].strides: return True
+    chk = big.copy(); chk[1::2, :2] = VIEW_FILL
+    return bool((chk == VIEW_FILL).all())
+def rand_kind(rng, ints, lists=True, f4=True):
+    if ints: ks = ["i8", "i8", "i4", "i4", "f8", "f8"] + (["pylist", "pytuples"] if lists else [])
+    else: ks = ["f8"] * 4 + ["f8view", "f8F"] + (["f4"] * 3 if f4 else []) + (["pylist"] if lists else [])
+    return rng.choice(ks)
+def f32_exact(fr):
+    """the Fraction is a float32 number"""
+    try: return Fraction(float(np.float32(float(fr)))) == fr
+    except OverflowError: return False
+def centroid_f32_exact(B):
+    n = len(B)
+    return n == 0 or (f32_exact(sum(b[0] for b in B) / n) and f32_exact(sum(b[1] for b in B) / n))
+def py_border_count(m):
+    """number of border pixels of a mask (generator side only: float32 data grids are scaled by it, so that np.mean of
+    the float32 border is exact; checked again at run time against the implementation's sub_border_slim)"""
+    h, w = len(m), len(m[0]); n = 0
+    get = lambda y, x: True if (y < 0 or x < 0 or y >= h or x >= w) else bool(m[y][x])
+    for y in range(h):
+        for x in range(w):
+            if m[y][x]: continue
+            edge = any(get(y + dy, x + dx) for dy in (-1, 0, 1) for dx in (-1, 0, 1) if (dy, dx) != (0, 0))
+            if not edge: continue
+            if (all(m[k][x] for k in range(0, y)) or all(m[y][k] for k in range(x + 1, w))
+                    or all(m[k][x] for k in range(y + 1, h)) or all(m[y][k] for k in range(0, x))): n += 1
+    return n
 
-def in_band_F(G, B, tally=True):
+# ----------------------------------------------------------------------------- decision band (exact)
+def in_band(grid16, border16, den=DEN, tally=True, d2tol=None):
+    return in_band_F(Fs(grid16, den), Fs(border16, den), tally, d2tol)
+
+def in_band_F(G, B, tally=True, d2tol=None):
     """True if some decision of the relocation of grid G against border B (exact Fractions) is closer than 1e-6 between
     coordinates that are not numerically identical.  Also tallies the kinds of point."""
     n = len(B)
@@ -94,7 +164,8 @@ def in_band_F(G, B, tally=True):
     bmin2 = min(br2); bmin = math.sqrt(bmin2)
     minimal = {B[i] for i in range(n) if br2[i] == bmin2}
     bset = set(B)
-    inexact = any(c.denominator > (1 << 16) for q in list(G) + list(B) for c in q)
+    inexact = d2tol is not None or any(c.denominator > (1 << 16) for q in list(G) + list(B) for c in q)
+    if d2tol is None: d2tol = 1e-9          # float32 operands: the squared distances are float32 numbers (d2tol = 1e-5)
     tal = {"points": 0, "moved": 0, "interior": 0, "outside_kept": 0, "at_border": 0}
     for p in G:
         rp2 = r2(p); rp = math.sqrt(rp2)
@@ -113,7 +184,7 @@ def in_band_F(G, B, tally=True):
         if abs(rb - rp) < 2e-6 * max(1.0, rp): return True
         if inexact:      # results of earlier calls as inputs: the squared distances are rounded by the implementation
             for j in range(n):
-                if br2[j] != br2[k] and abs(float(d2[j] - d2[k])) <= 1e-9 * max(1.0, float(d2[k])): return True
+                if br2[j] != br2[k] and abs(float(d2[j] - d2[k])) <= d2tol * max(1.0, float(d2[k])): return True
         tal["moved" if rb < rp else "outside_kept"] += 1
     if tally:
         for k, v in tal.items(): STATS[k] += v
@@ -127,9 +198,15 @@ def all_masks(h, w):
 def npix(m): return sum(1 for row in m for v in row if not v)
 
 def rand_mask(rng):
-    kind = rng.choice(["random", "disc", "ring", "ell", "blob", "full", "comb"])
+    kind = rng.choice(["random", "disc", "ring", "ell", "blob", "full", "comb"] * 3 + ["single", "row", "col"])
     h, w = rng.randint(3, 7), rng.randint(3, 7)
+    if kind == "row": h = 1; kind = rng.choice(["random", "full"])          # size-1 dimensions
+    elif kind == "col": w = 1; kind = rng.choice(["random", "full"])
+    elif rng.random() < 0.04: h = w = 1; kind = "full"
     m = [[1] * w for _ in range(h)]
+    if kind == "single":            # one unmasked pixel: a one-point border of radius 0 for sub-size 1
+        m[rng.randrange(h)][rng.randrange(w)] = 0
+        return m
     if kind == "random":
         p = rng.choice([0.3, 0.5, 0.7])
         m = [[1 if rng.random() < p else 0 for _ in range(w)] for _ in range(h)]
@@ -154,7 +231,7 @@ def rand_mask(rng):
             y = min(h - 1, max(0, y + dy)); x = min(w - 1, max(0, x + dx))
     elif kind == "full":
         m = [[0] * w for _ in range(h)]
-        if rng.random() < 0.5:
+        if rng.random() < 0.5 and h > 2 and w > 2:
             for y in range(h): m[y][0] = m[y][w - 1] = 1
             for x in range(w): m[0][x] = m[h - 1][x] = 1
     elif kind == "comb":
@@ -164,12 +241,28 @@ def rand_mask(rng):
     if npix(m) == 0: m[rng.randrange(h)][rng.randrange(w)] = 0
     return m
 
+# forms of the per-pixel sub-size map: integer- and FLOAT-typed (what OverSamplingUniform.from_radial_bins produces:
+# a float64 Array2D), ndarray / Array2D / Python lists
+SUB_MAP_KINDS = ["ndarray", "array2d", "ndarray_f8", "array2d_f8", "ndarray_f4", "ndarray_i4", "pylist", "pylist_f"]
 def rand_sub(rng, n):
     k = rng.random()
-    if k < 0.25: return {"kind": "int", "v": rng.choice([1, 1, 2, 4] if n <= 12 else [1, 2])}
+    if k < 0.2: return {"kind": "int", "v": rng.choice([1, 1, 2, 4] if n <= 12 else [1, 2])}
     vals = [1, 2, 4] if n <= 8 else [1, 1, 2]
-    return {"kind": rng.choice(["ndarray", "array2d"]), "v": [rng.choice(vals) for _ in range(n)]}
+    return {"kind": rng.choice(SUB_MAP_KINDS), "v": [rng.choice(vals) for _ in range(n)]}
 def sub_list(sub, n): return [sub["v"]] * n if sub["kind"] == "int" else list(sub["v"])
+def make_sub(aa, sub, mask):
+    """the sub_size argument of BorderRelocator in the form named by sub['kind']"""
+    k = sub["kind"]; v = sub["v"]
+    if k == "int": return int(v)
+    if k == "ndarray": return np.array(v, dtype=int)
+    if k == "array2d": return aa.Array2D(values=np.array(v, dtype=int), mask=mask)
+    if k == "ndarray_f8": return np.array(v, dtype=float)
+    if k == "array2d_f8": return aa.Array2D(values=np.array(v, dtype=float), mask=mask)
+    if k == "ndarray_f4": return np.array(v, dtype=np.float32)
+    if k == "ndarray_i4": return np.array(v, dtype=np.int32)
+    if k == "pylist": return [int(x) for x in v]
+    if k == "pylist_f": return [float(x) for x in v]
+    raise ValueError(k)
 
 def unit_sub_grid16(m, subs):
     """the over-sampled grid in pixel units (pure python, exact, times 16)"""
@@ -238,6 +331,48 @@ def rand_points(rng, border, k):
         else: pts.append([rng.randint(-64, 64), rng.randint(-64, 64)])
     return pts
 
+def rescale(rng, pts, den_from, den_to):
+    """the same positions (up to a jitter below the coarser lattice step) on the lattice of another denominator: lets an
+    integer-typed array (den 1) meet a float-typed one with fractional values (den 16) in one call"""
+    if den_to == den_from: return [list(p) for p in pts]
+    if den_to > den_from:
+        q = den_to // den_from; j = max(0, q // 2 - 1)
+        return [[p[0] * q + rng.randint(-j, j), p[1] * q + rng.randint(-j, j)] for p in pts]
+    return [[int(round(p[0] * den_to / den_from)), int(round(p[1] * den_to / den_from))] for p in pts]
+def mixed_kind(rng, ints, den, lists=True):
+    """(kind, den) of a second array of a call: mostly of the first one's family, sometimes of the other family
+    (integer-typed array with a float-typed partner holding fractional values, and the reverse)"""
+    if ints:
+        k = "f8" if rng.random() < 0.3 else rand_kind(rng, True, lists)
+        return (k, 16) if k == "f8" else (k, 1)
+    if rng.random() < 0.25: return rng.choice(["i8", "i4"] + (["pylist"] if lists else [])), 1
+    return rand_kind(rng, False, lists), den
+
+def fix_centroid(pts, idx):
+    """moves the first of the points pts[i], i in idx, so that their centroid is a lattice point (in place)"""
+    idx = list(idx); n = len(idx)
+    if n:
+        for c in (0, 1): pts[idx[0]][c] -= sum(pts[i][c] for i in idx) % n
+    return pts
+
+def rel_case(rng, op, m, sub, subs):
+    """one call through BorderRelocator / the mesh classes: the KINDS of the data grid and the mesh grid (dtype, list,
+    view), their containers (Grid2DIrregular, its subclass Grid2DIrregularUniform, Grid2D, a Mesh2D object) are drawn
+    independently; integer-typed coordinates take den = 1"""
+    ints = rng.random() < 0.3
+    den = 1 if ints else rng.choice([16, 64])
+    gk = rand_kind(rng, ints); vk, vden = mixed_kind(rng, ints, den)
+    grid = distort(rng, unit_sub_grid16(m, subs))
+    if gk == "f4":                # np.mean of the float32 border grid[sub_border_slim] is exact (checked at run time)
+        nb = max(1, py_border_count(m)); grid = [[y * nb, x * nb] for (y, x) in grid]
+    mesh = rescale(rng, rand_points(rng, grid, rng.randint(1, 6)), den, vden) if rng.random() > 0.04 else []
+    if not mesh and vk in LIST_KINDS: vk = "i8" if vden == 1 else "f8"       # an empty selection is an empty (0, 2) ndarray
+    cont = ["irregular", "irregular"] + ([] if gk in LIST_KINDS else ["irruniform", "ndarray"] + (["grid2d"] * 2 if all(s == 1 for s in subs) else []))
+    return {"op": op, "mask": m, "sub": sub, "grid": grid, "mesh": mesh, "den": den, "vden": vden,
+            "mesh_kind": rng.choice(["Delaunay", "Voronoi", "Rectangular"] if op == "mapper" else ["Delaunay", "Voronoi"]),
+            "container": rng.choice(cont), "gkind": gk, "vkind": vk,
+            "vcontainer": "irregular" if vk in LIST_KINDS or not mesh else rng.choice(["irregular", "irregular", "mesh2d", "irruniform", "ndarray"])}
+
 def gen_inputs(tier, rng):
     """deterministically shuffled, so that the (expensive) relocation cases are spread evenly over the Coq shards"""
     items = list(_gen_inputs(tier, rng))
@@ -246,18 +381,26 @@ def gen_inputs(tier, rng):
 
 def _gen_inputs(tier, rng):
     big = tier == "thorough"
-    # ---- (a) util, exhaustive small
+    # ---- (a) util, exhaustive small; every 4th border with INTEGER-typed coordinate arrays (den = 1)
     lat = [(y, x) for y in (-1, 0, 1) for x in (-1, 0, 1)]
     allp = [[y * DEN, x * DEN] for y in range(-2, 3) for x in range(-2, 3)]
     for k in ((3, 4) if big else (3,)):
         for ci, comb in enumerate(itertools.combinations(lat, k)):
-            yield {"op": "util", "grid": allp, "border": [[y * DEN, x * DEN] for (y, x) in comb], "den": (16, 64, 256)[ci % 3]}
+            inp = {"op": "util", "grid": allp, "border": [[y * DEN, x * DEN] for (y, x) in comb], "den": (16, 64, 256, 1)[ci % 4]}
+            if inp["den"] == 1: inp.update(gkind=("i8", "i4")[ci // 4 % 2], bkind=("i4", "i8", "f8")[ci // 4 % 3])
+            yield inp
     yield {"op": "util", "grid": allp[:3], "border": []}
     yield {"op": "util", "grid": [], "border": [[0, 0], [16, 0]]}
-    # ---- (a) util, random
+    # ---- (a) util, random; 30% integer-typed (int64 / int32 ndarrays, den = 1), float32, strided views, Fortran order
     for _ in range(1000 if big else 150):
+        ints = rng.random() < 0.3
+        den = 1 if ints else rng.choice([16, 64, 256])
+        gk = rand_kind(rng, ints, lists=False); bk, bden = mixed_kind(rng, ints, den, lists=False)
         b = rand_border(rng)
-        yield {"op": "util", "grid": rand_points(rng, b, rng.randint(1, 10)), "border": b, "den": rng.choice([16, 64, 256])}
+        g = rand_points(rng, b, rng.randint(1, 10))
+        b = rescale(rng, b, den, bden)
+        if bk == "f4": fix_centroid(b, range(len(b)))       # np.mean of a float32 border is then exact
+        yield {"op": "util", "grid": g, "border": b, "den": den, "bden": bden, "gkind": gk, "bkind": bk}
     # ---- (c) exhaustive masks
     lim = 11 if big else 9
     for h in range(1, lim + 1):
@@ -276,17 +419,26 @@ def _gen_inputs(tier, rng):
         while True:
             m = rand_mask(rng); n = npix(m); sub = rand_sub(rng, n); subs = sub_list(sub, n)
             if sum(v * v for v in subs) <= (64 if big else 40): break
-        grid = distort(rng, unit_sub_grid16(m, subs))
-        mesh = rand_points(rng, grid, rng.randint(1, 6))
         op = ("reloc", "mesh", "mapper")[i % 3]
-        yield {"op": op, "mask": m, "sub": sub, "grid": grid, "mesh": mesh, "den": rng.choice([16, 64]),
-               "mesh_kind": rng.choice(["Delaunay", "Voronoi", "Rectangular"] if op == "mapper" else ["Delaunay", "Voronoi"]),
-               "container": rng.choice(["irregular", "grid2d"]) if all(s == 1 for s in subs) else "irregular"}
+        yield rel_case(rng, op, m, sub, subs)
         if i % 3 == 0:
             yield {"op": "subborder", "mask": m, "sub": sub, "via": rng.choice(["class", "util"])}
             yield {"op": "subbordergrid", "mask": m, "sub": sub, "ps": rng.choice([[16, 16], [8, 8], [32, 16], [4, 32]]),
                    "origin": [rng.randint(-8, 8) * 4, rng.randint(-8, 8) * 4]}
             yield {"op": "borderidx", "mask": m}
+    # ---- (r) sub-size maps made by OverSamplingUniform.from_radial_bins (FLOAT-typed Array2D), relocator = GridsDataset.border_relocator
+    for i in range(240 if big else 36):
+        m = rand_mask(rng)
+        if len(m) * len(m[0]) > 36: m = [row[:6] for row in m[:6]]
+        if npix(m) == 0: m[0][0] = 0
+        ints = rng.random() < 0.3
+        yield {"op": "radial", "what": ("reloc", "mesh", "mapper", "own")[i % 4], "mask": m,
+               "ps": rng.choice([[16, 16], [8, 8], [32, 32]]), "origin": [rng.randint(-4, 4) * 4, rng.randint(-4, 4) * 4],
+               "sub_size_list": rng.choice([[4, 2, 1], [2, 1], [4, 1], [2, 4, 1], [1, 2], [2, 2, 1]]),
+               "radial_frac": sorted(rng.sample([3, 5, 9, 13, 19, 27, 35], 3)),     # bin radii in 1/8 pixel
+               "seed": rng.randrange(1 << 30), "den": 1 if ints else 16, "vden": 16 if ints else rng.choice([1, 16, 16]),
+               "gkind": rand_kind(rng, ints, f4=False), "vkind": None,
+               "mesh_kind": rng.choice(["Delaunay", "Voronoi"])}
     yield {"op": "mapper", "mask": None, "sub": None, "grid": [[1, 2], [300, 4]], "mesh": [[5, 6]], "mesh_kind": "Delaunay",
            "container": "irregular"}
     # ---- (h) histories on BorderRelocator objects, (s) scale equivariance
@@ -319,25 +471,30 @@ def gen_hist(rng, big):
     if k < 0.35 and len(set(s0)) > 1:                                # same mask object, permuted sub-size map
         v = list(s0)
         while v == s0: rng.shuffle(v)
-        subs.append({"kind": rng.choice(["ndarray", "array2d"]), "v": v})
+        subs.append({"kind": rng.choice(SUB_MAP_KINDS), "v": v})
     elif k < 0.45: subs.append(dict(sub0))                           # a second object with the same arguments
     elif k < 0.7:
         for _ in range(20):
             sub1 = rand_sub(rng, n)
             if total_sub(sub_list(sub1, n)) <= cap and sub_list(sub1, n) != s0: subs.append(sub1); break
     totals = [total_sub(sub_list(sb, n)) for sb in subs]
-    den = rng.choice([16, 64, 64])
+    ints = rng.random() < 0.3            # integer-typed coordinate arrays (and Python int lists) in the pool: den = 1
+    den = 1 if ints else rng.choice([16, 64, 64])
     grids = []
     for r, sb in enumerate(subs):
         for _ in range(rng.randint(2, 3) if r == 0 else rng.randint(1, 2)):
             sl = sub_list(sb, n)
-            cont = rng.choice(["irregular", "irregular", "derived"] +
-                              (["grid2d", "derived2d", "slim2d"] if all(v == 1 for v in sl) else ["irregular", "derived"]))
-            grids.append({"n": totals[r], "pts": distort(rng, unit_sub_grid16(m, sl)), "container": cont})
+            kd = rand_kind(rng, ints, f4=False)
+            cont = "irregular" if kd in LIST_KINDS else rng.choice(
+                ["irregular", "irregular", "derived", "irruniform", "ndarray"] +
+                (["grid2d", "derived2d", "slim2d"] if all(v == 1 for v in sl) else ["irregular", "derived"]))
+            grids.append({"n": totals[r], "pts": distort(rng, unit_sub_grid16(m, sl)), "container": cont, "kind": kd})
     meshes = []
     for _ in range(rng.randint(2, 3)):
         g = rng.choice(grids)["pts"]
-        meshes.append({"pts": rand_points(rng, g, rng.randint(1, 5)), "container": rng.choice(["irregular", "derived"])})
+        kd, vd = mixed_kind(rng, ints, den)
+        meshes.append({"pts": rescale(rng, rand_points(rng, g, rng.randint(1, 5)), den, vd), "kind": kd, "den": vd,
+                       "container": "irregular" if kd in LIST_KINDS else rng.choice(["irregular", "derived", "mesh2d", "irruniform", "ndarray"])})
     # steps; pool indexes of kept results are known in advance (len(grids) + number of keeps so far)
     pool_n = [g["n"] for g in grids]
     def pick_grid(r, avoid=None):
@@ -371,7 +528,8 @@ def gen_hist(rng, big):
     for _ in range(rng.randint(2, 7)):
         r = rng.randrange(len(subs)); k = rng.random()
         if k < 0.27:
-            st = {"do": "reloc", "r": r, "g": pick_grid(r), "via": rng.choice(["rel", "rel", "meshapi", "rect"])}
+            st = {"do": "reloc", "r": r, "g": pick_grid(r), "via": rng.choice(["rel", "rel", "meshapi", "rect"]),
+                  "shared": rng.random() < 0.4}
             if rng.random() < 0.35: st["keep"] = True; pool_n.append(totals[r])
             steps.append(st)
         elif k < 0.55:
@@ -380,7 +538,7 @@ def gen_hist(rng, big):
             none_rel = rng.random() < 0.1
             steps.append({"do": "mapper", "r": None if none_rel else r, "g": pick_grid(r),
                           "pre": pick_grid(r) if rng.random() < 0.45 else None, "v": rng.randrange(len(meshes)),
-                          "kind": rng.choice(["Delaunay", "Voronoi"])})
+                          "kind": rng.choice(["Delaunay", "Voronoi"]), "shared": rng.random() < 0.4})
         elif k < 0.81: steps.append({"do": "subborder", "r": r})
         elif k < 0.86: steps.append({"do": "subbordergrid", "r": r})
         elif k < 0.95:
@@ -396,13 +554,51 @@ def gen_hist(rng, big):
             "origin": [rng.randint(-4, 4) * 4, rng.randint(-4, 4) * 4], "grids": grids, "meshes": meshes, "steps": steps}
 
 def make_container(aa, kind, vals, mask):
-    """returns (object handed to the implementation, the caller's ndarray it is built over or None)"""
-    if kind == "irregular": return aa.Grid2DIrregular(values=vals), vals          # aliases the caller's array
+    """returns (object handed to the implementation, the caller's ndarray it ALIASES or None)"""
+    if isinstance(vals, list): return aa.Grid2DIrregular(values=vals), None                       # Python lists of ints / floats
+    ints = vals.dtype.kind == "i"
+    if kind == "irregular": return aa.Grid2DIrregular(values=vals), vals                          # aliases the caller's array
+    if kind == "ndarray": return vals, vals                                                       # a plain ndarray, no container
+    if kind == "irruniform":                                                                      # SUBCLASS of Grid2DIrregular
+        return aa.Grid2DIrregularUniform(values=vals, shape_native=mask.shape_native, pixel_scales=mask.pixel_scales), None
+    if kind == "mesh2d":                                                                          # a mesh object as the mesh grid
+        from autoarray.structures.mesh.delaunay_2d import Mesh2DDelaunay
+        return Mesh2DDelaunay(values=vals), None
     if kind == "grid2d": return aa.Grid2D(values=vals, mask=mask), None
-    if kind == "derived": return (aa.Grid2DIrregular(values=vals * 0.5 - 3.0) + 3.0) * 2.0, None     # exact in doubles
-    if kind == "slim2d": return aa.Grid2D(values=vals, mask=mask).native.slim, None                  # native and back
+    if kind == "slim2d": return aa.Grid2D(values=vals, mask=mask).native.slim, None               # native and back
+    if ints:          # derived structures that keep the integer type
+        if kind == "derived": return (aa.Grid2DIrregular(values=vals) + 3) - 3, None
+        if kind == "derived2d": return (aa.Grid2D(values=vals, mask=mask) + 3) - 3, None
+    if kind == "derived": return (aa.Grid2DIrregular(values=vals * 0.5 - 3.0) + 3.0) * 2.0, None  # exact in doubles
     if kind == "derived2d": return (aa.Grid2D(values=vals * 0.5 - 3.0, mask=mask) + 3.0) * 2.0, None
     raise ValueError(kind)
+
+def same_pts(obj, cont):
+    """the object (container, ndarray or list) holds exactly the tracked coordinates"""
+    a = np.array(obj, dtype=float).reshape(-1, 2)
+    return len(a) == len(cont) and (len(cont) == 0 or bool((a == arrF(cont)).all()))
+
+def kind_tag(*ks):
+    ks = [k for k in ks if k != "f8"]
+    return "" if not ks else "_" + ("int" if any(k in INT_KINDS or k in LIST_KINDS for k in ks) else "f4" if "f4" in ks else "view")
+
+_DEFAULTS = []
+def default_objects(aa):
+    """the shared DEFAULT argument objects (Preloads()) of the relocation entry points, with their state at import"""
+    if not _DEFAULTS:
+        import inspect
+        from autoarray.inversion.pixelization.mesh.abstract import AbstractMesh
+        fns = [AbstractMesh.relocated_grid_from, AbstractMesh.mapper_grids_from, aa.mesh.Delaunay.mapper_grids_from,
+               aa.mesh.Voronoi.mapper_grids_from, aa.mesh.Rectangular.mapper_grids_from]
+        seen = set()
+        for fn in fns:
+            for prm in inspect.signature(fn).parameters.values():
+                d = prm.default
+                if d is not inspect.Parameter.empty and hasattr(d, "__dict__") and id(d) not in seen:
+                    seen.add(id(d)); _DEFAULTS.append((d, {k: id(v) for k, v in vars(d).items()}))
+    return _DEFAULTS
+def defaults_clean(aa):
+    return all({k: id(v) for k, v in vars(d).items()} == fp for d, fp in default_objects(aa))
 
 def run_hist(aa, inp, skipped):
     from autoarray.preloads import Preloads
@@ -410,11 +606,7 @@ def run_hist(aa, inp, skipped):
     marr = np.array(m, dtype=bool)
     ps = tuple(v / DEN for v in inp["ps"]); org = tuple(v / DEN for v in inp["origin"])
     mask = aa.Mask2D(mask=marr, pixel_scales=ps, origin=org)
-    def relocator(sub, msk):
-        if sub["kind"] == "int": ss = int(sub["v"])
-        elif sub["kind"] == "ndarray": ss = np.array(sub["v"], dtype=int)
-        else: ss = aa.Array2D(values=np.array(sub["v"], dtype=int), mask=msk)
-        return aa.BorderRelocator(mask=msk, sub_size=ss)
+    def relocator(sub, msk): return aa.BorderRelocator(mask=msk, sub_size=make_sub(aa, sub, msk))
     rels = [relocator(sb, mask) for sb in inp["subs"]]                 # ONE Mask2D object
     subl = [sub_list(sb, n) for sb in inp["subs"]]
     # twins, used only to decide which calls fall into the undecided band (never handed to the calls under test)
@@ -422,24 +614,41 @@ def run_hist(aa, inp, skipped):
     twin_sbs = [[int(v) for v in relocator(sb, twin_mask).sub_border_slim] for sb in inp["subs"]]
     first_sbs = [None] * len(rels)
     pool = []                                                          # [object, tracked contents (Fractions), caller's array]
+    aliases = lambda obj, vals: isinstance(vals, np.ndarray) and np.shares_memory(np.asarray(obj), vals)
+    callers = []                                                       # (the caller's own array / list, tracked contents) of non-aliased inputs
     for g in inp["grids"]:
-        obj, own = make_container(aa, g["container"], arr16(g["pts"], den), mask)
+        vals = mk_vals(g["pts"], den, g.get("kind", "f8"))
+        obj, own = make_container(aa, g["container"], vals, mask)
         pool.append([obj, Fs(g["pts"], den), own])
+        if own is None: callers.append((vals, pool[-1][1] if aliases(obj, vals) else Fs(g["pts"], den)))
     meshes = []
     for v in inp["meshes"]:
-        obj, own = make_container(aa, v["container"], arr16(v["pts"], den), mask)
-        meshes.append([obj, Fs(v["pts"], den), own])
+        vd = v.get("den", den)
+        vals = mk_vals(v["pts"], vd, v.get("kind", "f8"))
+        obj, own = make_container(aa, v["container"], vals, mask)
+        meshes.append([obj, Fs(v["pts"], vd), own])
+        if own is None: callers.append((vals, meshes[-1][1] if aliases(obj, vals) else Fs(v["pts"], vd)))
+    # ONE Preloads() object of the caller (nothing preloaded) handed to several calls
+    # (run_time_dict is left at None: the repo's default config has no general/profiling section, profile_func needs one)
+    shared_pre = Preloads(); shared_fp = {k: id(x) for k, x in vars(shared_pre).items()}
     ok = True; notes = []; terms = []; outs = []; done = 0
     # ONE mesh object per kind for the whole history (AbstractMesh.relocated_grid_from and relocated_mesh_grid_from are called
     # on the same Delaunay object; the mappers on the Delaunay / Voronoi / Rectangular objects)
     MESH = {"Delaunay": aa.mesh.Delaunay(), "Voronoi": aa.mesh.Voronoi(), "Rectangular": aa.mesh.Rectangular(shape=(3, 3))}
-    def same(obj, cont): return bool((np.array(obj).reshape(-1, 2) == arrF(cont)).all()) if len(cont) else True
+    same = same_pts
     def audit(tag):
         nonlocal ok
-        for i, (o, c, _) in enumerate(pool):
+        for i, (o, c, own) in enumerate(pool):
             if not same(o, c): ok = False; notes.append(f"{tag}: data grid {i} was written")
-        for i, (o, c, _) in enumerate(meshes):
+            if own is not None and not view_intact(own): ok = False; notes.append(f"{tag}: the array around data grid {i} was written")
+        for i, (o, c, own) in enumerate(meshes):
             if not same(o, c): ok = False; notes.append(f"{tag}: mesh grid {i} was written")
+            if own is not None and not view_intact(own): ok = False; notes.append(f"{tag}: the array around mesh grid {i} was written")
+        for i, (vals, c) in enumerate(callers):
+            if not same(vals, c): ok = False; notes.append(f"{tag}: the caller's array / list {i} was written")
+        if {k: id(x) for k, x in vars(shared_pre).items()} != shared_fp:
+            ok = False; notes.append(f"{tag}: the caller's Preloads() object was written")
+        if not defaults_clean(aa): ok = False; notes.append(f"{tag}: a shared default argument object was written")
     def read_sbs(r, tag):
         nonlocal ok
         v = [int(k) for k in rels[r].sub_border_slim]
@@ -459,7 +668,7 @@ def run_hist(aa, inp, skipped):
             else: o[j] = [float(newp[0]), float(newp[1])]
             c[j] = newp; audit(tag); continue
         if do == "editmesh":
-            o, c, own = meshes[st["v"]]; j = st["j"] % len(c); newp = F(st["p"], den)
+            o, c, own = meshes[st["v"]]; j = st["j"] % len(c); newp = F(st["p"], inp["meshes"][st["v"]].get("den", den))
             if own is not None: own[j] = [float(newp[0]), float(newp[1])]
             else: o[j] = [float(newp[0]), float(newp[1])]
             c[j] = newp; audit(tag); continue
@@ -479,13 +688,15 @@ def run_hist(aa, inp, skipped):
         if do == "reloc":
             if in_band_F(gc, border_of(gc, rr)): STATS["skipped_band"] += 1; continue
             via = st["via"]
+            kw ={"preloads": shared_pre} if st.get("shared") else {}
+            kwm = kw
             if via == "rel": f = lambda: rels[r].relocated_grid_from(grid=gobj)
-            elif via == "meshapi": f = lambda: MESH["Delaunay"].relocated_grid_from(border_relocator=rels[r], source_plane_data_grid=gobj)
+            elif via == "meshapi": f = lambda: MESH["Delaunay"].relocated_grid_from(border_relocator=rels[r], source_plane_data_grid=gobj, **kw)
             elif via == "mapper": f = lambda: MESH["Voronoi"].mapper_grids_from(
                 mask=mask, border_relocator=rels[r], source_plane_data_grid=gobj,
-                source_plane_mesh_grid=aa.Grid2DIrregular(values=arrF(gc[:1]))).source_plane_data_grid
+                source_plane_mesh_grid=aa.Grid2DIrregular(values=arrF(gc[:1])), **kwm).source_plane_data_grid
             else: f = lambda: MESH["Rectangular"].mapper_grids_from(
-                mask=mask, border_relocator=rels[r], source_plane_data_grid=gobj).source_plane_data_grid
+                mask=mask, border_relocator=rels[r], source_plane_data_grid=gobj, **kwm).source_plane_data_grid
             try: res = ("ok", f())
             except Exception as e:
                 if via == "rect": continue                     # degenerate overlay: not a relocation matter
@@ -516,7 +727,7 @@ def run_hist(aa, inp, skipped):
                 if in_band_F(vc, border_of(pc if pre is not None else gc, r)): STATS["skipped_band"] += 1; continue
             M = MESH[st["kind"]]
             def f():
-                kw = {} if pre is None else {"preloads": Preloads(relocated_grid=pool[pre][0])}
+                kw = ({"preloads": shared_pre} if st.get("shared") else {}) if pre is None else {"preloads": Preloads(relocated_grid=pool[pre][0])}
                 mg = M.mapper_grids_from(mask=mask, border_relocator=rels[r] if r is not None else None,
                                          source_plane_data_grid=gobj, source_plane_mesh_grid=vobj, **kw)
                 return [pts_out(mg.source_plane_data_grid), pts_out(mg.source_plane_mesh_grid)]
@@ -580,11 +791,7 @@ def make_relocator(aa, inp):
     m = np.array(inp["mask"], dtype=bool)
     ps = tuple(v / DEN for v in inp.get("ps", [16, 16])); org = tuple(v / DEN for v in inp.get("origin", [0, 0]))
     mask = aa.Mask2D(mask=m, pixel_scales=ps, origin=org)
-    sub = inp["sub"]
-    if sub["kind"] == "int": ss = int(sub["v"])
-    elif sub["kind"] == "ndarray": ss = np.array(sub["v"], dtype=int)
-    else: ss = aa.Array2D(values=np.array(sub["v"], dtype=int), mask=mask)
-    return mask, aa.BorderRelocator(mask=mask, sub_size=ss)
+    return mask, aa.BorderRelocator(mask=mask, sub_size=make_sub(aa, inp["sub"], mask))
 
 def cres_pts(x): return cres(x, cptsf)
 
@@ -594,21 +801,26 @@ def run_case(inp):
     from autoarray.inversion.pixelization import border_relocator as br
     from autoarray.mask import mask_2d_util
     op = inp["op"]; den = inp.get("den", DEN)
+    default_objects(aa)
     R = dict(py_ok=None, nontrivial=True, kind=op)
     def skipped():
         STATS["skipped_band"] += 1
         return dict(coq=None, out=None, py_ok=None, nontrivial=False, kind="skipped_band")
     if op == "util":
-        if in_band(inp["grid"], inp["border"], den): return skipped()
-        g = arr16(inp["grid"], den); g0 = g.copy(); b = arr16(inp["border"], den); b0 = b.copy()
+        gk, bk = inp.get("gkind", "f8"), inp.get("bkind", "f8"); bden = inp.get("bden", den)
+        f4 = "f4" in (gk, bk)
+        if in_band_F(Fs(inp["grid"], den), Fs(inp["border"], bden), d2tol=1e-5 if f4 else None): return skipped()
+        if bk == "f4" and not centroid_f32_exact(Fs(inp["border"], bden)): bk = "f8"; STATS["f4_downgraded"] += 1
+        g = mk_vals(inp["grid"], den, gk); g0 = g.copy(); b = mk_vals(inp["border"], bden, bk); b0 = b.copy()
         out = call_res(lambda: pts_out(grid_2d_util.relocated_grid_via_jit_from(grid=g, border_grid=b)))
-        R["py_ok"] = bool((g == g0).all() and (b == b0).all())          # the caller's arrays are not written
-        R.update(coq=f"(KUtil {cpts16(inp['grid'], den)} {cpts16(inp['border'], den)} {cres_pts(out)})", out=out,
-                 nontrivial=bool(inp["grid"]) and bool(inp["border"]))
+        # the caller's arrays are not written (nor, for a strided view, the rest of the caller's larger array)
+        R["py_ok"] = bool((g == g0).all() and (b == b0).all() and g.dtype == g0.dtype and view_intact(g) and view_intact(b))
+        R.update(coq=f"(KUtil {cpts16(inp['grid'], den)} {cpts16(inp['border'], bden)} {cres_pts(out)})", out=out,
+                 nontrivial=bool(inp["grid"]) and bool(inp["border"]), kind="util" + kind_tag(gk, bk))
         return R
-    if op in ("reloc", "mesh", "mapper"):
-        grid16, mesh16 = inp["grid"], inp["mesh"]
-        if inp["mask"] is None:
+    if op in ("reloc", "mesh", "mapper", "radial"):
+        grid16, mesh16 = inp.get("grid"), inp.get("mesh")
+        if op != "radial" and inp["mask"] is None:
             M = getattr(aa.mesh, inp["mesh_kind"])()
             def f():
                 mg = M.mapper_grids_from(mask=None, border_relocator=None,
@@ -619,21 +831,60 @@ def run_case(inp):
             R.update(coq=f"(KMapper None [] {cpts16(grid16, den)} {cpts16(mesh16, den)} "
                          f"{cres(out, lambda v: ctup([cptsf(v[0]), cptsf(v[1])]))})", out=out)
             return R
-        mask, rel = make_relocator(aa, inp)
-        n = npix(inp["mask"]); subs = sub_list(inp["sub"], n)
+        gk, vk = inp.get("gkind", "f8"), inp.get("vkind", "f8"); vden = inp.get("vden", den)
+        gcont, vcont = inp.get("container", "irregular"), inp.get("vcontainer", "irregular")
+        own_grid = None
+        if op == "radial":
+            # the sub-size map is what OverSamplingUniform.from_radial_bins returns (a float-typed Array2D), the relocator
+            # is GridsDataset.border_relocator; the map it was GIVEN (read before the relocator exists) is the model's input
+            import random as _random
+            from autoarray.dataset.grids import GridsDataset
+            from autoarray.dataset.over_sampling import OverSamplingDataset
+            marr = np.array(inp["mask"], dtype=bool)
+            ps = tuple(v / DEN for v in inp["ps"]); org = tuple(v / DEN for v in inp["origin"])
+            mask = aa.Mask2D(mask=marr, pixel_scales=ps, origin=org)
+            ssl = inp["sub_size_list"]
+            rl = [f / 8.0 * ps[0] for f in inp["radial_frac"][:len(ssl)]]
+            osu = aa.OverSamplingUniform.from_radial_bins(grid=aa.Grid2D.from_mask(mask=mask), sub_size_list=ssl, radial_list=rl)
+            fmap = np.array(osu.sub_size)
+            subs = [int(v) for v in fmap]
+            if not all(float(k) == float(v) and k >= 1 for k, v in zip(subs, fmap)):
+                return dict(coq=None, out=None, py_ok=None, nontrivial=False, kind="radial_map_not_integral")
+            gd = GridsDataset(mask=mask, over_sampling=OverSamplingDataset(pixelization=osu))
+            rel = gd.border_relocator
+            op = inp["what"]; R["kind"] = "radial_" + op + ("_" + str(fmap.dtype) if fmap.dtype != np.float64 else "")
+            if total_sub(subs) > 64:                       # too many sub-pixels for a relocation case: the indices only
+                out = call_res(lambda: [int(v) for v in rel.sub_border_slim])
+                R.update(coq=f"(KSubBorder {cmask(inp['mask'])} {cnats(subs)} {cres(out, cnats)})", out=out, kind="radial_subborder")
+                return R
+            rng2 = _random.Random(inp["seed"])
+            if op == "own":                                # the dataset's own over-sampled grid object, stretched, is the data grid
+                own_grid = gd.over_sampler_pixelization.over_sampled_grid
+                op = "mesh"
+            grid16 = distort(rng2, unit_sub_grid16(inp["mask"], subs))
+            mesh16 = rescale(rng2, rand_points(rng2, grid16, rng2.randint(1, 6)), den, vden)
+            if vk is None: vk = rng2.choice(["i8", "i4", "pylist"] if vden == 1 else ["f8", "f8", "f4", "f8view"])
+        else:
+            mask, rel = make_relocator(aa, inp)
+            subs = sub_list(inp["sub"], npix(inp["mask"]))
         sbs = [int(v) for v in rel.sub_border_slim]
-        border16 = [grid16[k] for k in sbs if 0 <= k < len(grid16)]
-        if in_band(grid16, border16, den) or (op != "reloc" and in_band(mesh16, border16, den)): return skipped()
-        if inp["container"] == "grid2d": grid = aa.Grid2D(values=arr16(grid16, den), mask=mask)
-        else: grid = aa.Grid2DIrregular(values=arr16(grid16, den))
-        mesh = aa.Grid2DIrregular(values=arr16(mesh16, den))
+        G = Fs(grid16, den) if own_grid is None else fr_pts(np.array(own_grid))
+        V = Fs(mesh16, vden)
+        B = [G[k] for k in sbs if 0 <= k < len(G)]
+        if gk == "f4" and not centroid_f32_exact(B): gk = "f8"; STATS["f4_downgraded"] += 1
+        d2tol = 1e-5 if "f4" in (gk, vk) else None
+        if (op != "mesh" and in_band_F(G, B, d2tol=d2tol)) or (op != "reloc" and in_band_F(V, B, d2tol=d2tol)): return skipped()
+        if own_grid is not None: grid, gvals, gk = own_grid, None, "f8"
+        else: gvals = mk_vals(grid16, den, gk); grid = make_container(aa, gcont, gvals, mask)[0]
+        vvals = mk_vals(mesh16, vden, vk); mesh = make_container(aa, vcont, vvals, mask)[0]
+        R["kind"] = R["kind"] + kind_tag(gk, vk if op != "reloc" else "f8")
         head = f"{cmask(inp['mask'])} {cnats(subs)}"
         if op == "reloc":
             out = call_res(lambda: pts_out(rel.relocated_grid_from(grid=grid)))
-            coq = f"(KReloc {head} {cnats(sbs)} {cpts16(grid16, den)} {cres_pts(out)})"
+            coq = f"(KReloc {head} {cnats(sbs)} {cptsF(G)} {cres_pts(out)})"
         elif op == "mesh":
             out = call_res(lambda: pts_out(rel.relocated_mesh_grid_from(grid=grid, mesh_grid=mesh)))
-            coq = f"(KMesh {head} {cnats(sbs)} {cpts16(grid16, den)} {cpts16(mesh16, den)} {cres_pts(out)})"
+            coq = f"(KMesh {head} {cnats(sbs)} {cptsF(G)} {cptsF(V)} {cres_pts(out)})"
         elif inp["mesh_kind"] == "Rectangular":
             # mesh/rectangular.py: only the data grid is relocated (the mesh is overlaid on the relocated grid)
             M = aa.mesh.Rectangular(shape=(3, 3))
@@ -641,7 +892,7 @@ def run_case(inp):
                                                                source_plane_data_grid=grid).source_plane_data_grid))
             if out[0] != "ok":            # degenerate overlay (zero extent): not a relocation matter
                 return dict(coq=None, out=out, py_ok=None, nontrivial=False, kind="rectangular_overlay_failed")
-            coq = f"(KReloc {head} {cnats(sbs)} {cpts16(grid16, den)} {cres_pts(out)})"
+            coq = f"(KReloc {head} {cnats(sbs)} {cptsF(G)} {cres_pts(out)})"
             R["kind"] = "mapper_rectangular"
         else:
             M = getattr(aa.mesh, inp["mesh_kind"])()
@@ -650,10 +901,14 @@ def run_case(inp):
                                          source_plane_mesh_grid=mesh)
                 return [pts_out(mg.source_plane_data_grid), pts_out(mg.source_plane_mesh_grid)]
             out = call_res(f)
-            coq = (f"(KMapper (Some ({cmask(inp['mask'])}, {cnats(subs)})) {cnats(sbs)} {cpts16(grid16, den)} {cpts16(mesh16, den)} "
+            coq = (f"(KMapper (Some ({cmask(inp['mask'])}, {cnats(subs)})) {cnats(sbs)} {cptsF(G)} {cptsF(V)} "
                    f"{cres(out, lambda v: ctup([cptsf(v[0]), cptsf(v[1])]))})")
         R.update(coq=coq, out=out)
-        R["py_ok"] = bool((np.array(grid) == arr16(grid16, den)).all() and (np.array(mesh) == arr16(mesh16, den)).all())
+        # no argument is written: the containers, and the caller's own arrays / lists they were built from
+        ok = same_pts(grid, G) and same_pts(mesh, V) and defaults_clean(aa)
+        for vals, C in ((gvals, G), (vvals, V)):
+            if vals is not None: ok = ok and same_pts(vals, C) and (not isinstance(vals, np.ndarray) or view_intact(vals))
+        R["py_ok"] = bool(ok)
         return R
     if op == "hist": return run_hist(aa, inp, skipped)
     if op == "scale": return run_scale(aa, inp, skipped)
